@@ -56,6 +56,8 @@ def main():
     if seeded:
         for mp in sorted(glob.glob(os.path.join(ROOT, "seeded", "*", "meta.json"))):
             meta = json.load(open(mp))
+            if meta.get("outside_statement"):
+                continue  # confirmed change that does not violate the statement as written (reason in its meta.json and DESIGN.md section 12)
             items.append(("seeded/" + os.path.basename(os.path.dirname(mp)), os.path.join(os.path.dirname(mp), "patch.diff"), meta.get("check_with", [meta["property"]])))
     rows = []
     for name, patch, props in items:
